@@ -3,7 +3,7 @@ import time
 from kit import extract, pmodel
 from kit.runner import Cond
 from kit.pdrive import FEATURE, SCENARIO, STEP, DOCA, DOCB, BACKGROUND, RULE
-from . import _p, _l
+from . import _p, _l, _d
 
 LEVEL = "other"
 FUNCTIONS = _l.FUNCTIONS + ["gherkin.parser.Parser states 35-42 (translated to z3; executed under CrossHair through the real parser)",
@@ -57,5 +57,6 @@ def conditions(tier):
     cs.append(_l.line1("Other", "", act=None, itr=0, maxlen=n, maxind=2, T=600))
     extra = [(p, 2 if q else 3, False) for p in DOC_PREFIXES]
     cs += _p.pdrv_conditions(select="none", k_all=0, k_tags=0, stop_too=False, extra=extra)
+    cs += _d.doc_conditions(tier, shapes=("docstring",), eols=("\n",) if q else ("\n", "\r\n"))
     cs.append(Cond("harness.line", "twin_never_matches", {"kind": "DocStringSeparator", "heads": ['"""', "```"]}, T=60, expect="cex"))
     return cs
